@@ -85,6 +85,7 @@ func NewHttpsProvider(cfg *serverConfig.HttpsServerConfig, logger sharedTypes.Lo
 			routerMux.Handle(fmt.Sprintf("%s %s", method, path), h)
 		}
 	}
+	srvr.Handler = routerMux
 
 	return provider
 }
